@@ -8,6 +8,8 @@ let run_consts _ =
   Printf.sprintf "WRAP_TOLERANCE=%s RTTE_MIN_RTO=%s RTTE_MAX_RTO=%s CLOCK_GRANULARITY=%s RTTE_INITIAL_RTT=%s"
     (string_of_z wRAP_TOLERANCE) (string_of_z rTTE_MIN_RTO) (string_of_z rTTE_MAX_RTO)
     (string_of_z cLOCK_GRANULARITY) (string_of_z rTTE_INITIAL_RTT)
+  ^ Printf.sprintf " IPV4_HEADER=%s IPV6_HEADER=%s UDP_HEADER=%s UTP_HEADER=%s"
+    (string_of_z iPV4_HEADER) (string_of_z iPV6_HEADER) (string_of_z uDP_HEADER) (string_of_z uTP_HEADER)
 
 
 let dispatchers : (string list -> string option) list = [
@@ -19,6 +21,7 @@ let dispatchers : (string list -> string option) list = [
   C_cubic.dispatch;
   C_wire.dispatch;
   C_vsock.dispatch;
+  C_mtu.dispatch;
 ]
 
 let dispatch line =
